@@ -81,8 +81,10 @@ type ohpParams struct {
 	p          onehop.Path
 	l4         l4Kind
 	slack      int
-	pldDelta   int // added to the PayloadLen field after serialisation
-	trunc      int // bytes cut off / appended at the end of the packet
+	hdrDelta   int  // added to the HdrLen field (in 4-byte lines) without moving any bytes
+	cutTo      int  // >0: the packet is cut to that many bytes beyond the address header
+	pldDelta   int  // added to the PayloadLen field after serialisation
+	trunc      int  // bytes cut off / appended at the end of the packet
 	reserved   bool // set reserved bits of the info/hop fields in the raw bytes
 	mut        string
 	resolvesOK bool
@@ -106,12 +108,23 @@ func (q *ohpParams) raw(r *vlib.Rand) []byte {
 		h, _ := parseRawHdr(raw)
 		off := 12 + h.addrLen
 		raw[off] |= byte(r.Intn(64)) << 2 // info reserved flag bits
-		raw[off+1] = byte(r.Intn(256))     // info RSV byte
+		raw[off+1] = byte(r.Intn(256))    // info RSV byte
 		raw[off+8] |= byte(r.Intn(64)) << 2
 		raw[off+20] |= byte(r.Intn(64)) << 2
 	}
 	if q.slack > 0 {
 		raw = withSlack(raw, q.slack, r)
+	}
+	if q.hdrDelta != 0 {
+		if v := int(raw[5]) + q.hdrDelta; v >= 0 && v <= 255 {
+			raw[5] = byte(v)
+		}
+	}
+	if q.cutTo > 0 {
+		h, _ := parseRawHdr(raw)
+		if n := 12 + h.addrLen + q.cutTo; n < len(raw) {
+			raw = raw[:n]
+		}
 	}
 	if q.pldDelta != 0 {
 		v := int(binary.BigEndian.Uint16(raw[6:8])) + q.pldDelta
@@ -457,7 +470,7 @@ func (c *c12) run() {
 			}
 			inOnly := false
 			if r.Chance(55) {
-				switch m := r.Intn(21); m {
+				switch m := r.Intn(23); m {
 				case 0:
 					mut, q.src = "src-other", other
 				case 1:
@@ -522,6 +535,12 @@ func (c *c12) run() {
 					mut = "expired"
 					q.p.Info.Timestamp = now - uint32(r.Range(100000, 10000000))
 					remac()
+				case 21:
+					mut = "hdrlen-field"
+					q.hdrDelta = []int{-1, -2, -8, -9, -12, -17, 1}[r.Intn(7)]
+				case 22:
+					mut = "cut-in-header"
+					q.cutTo = r.Range(1, 31)
 				case 19:
 					mut = "payloadlen-field"
 					q.pldDelta = []int{-1, 1, -8, 8, 255}[r.Intn(5)]
@@ -552,7 +571,11 @@ func (c *c12) run() {
 					viaB = bIf + 1
 				}
 				if mut == "in-mutated" {
-					switch r.Intn(8) {
+					switch r.Intn(10) {
+					case 8:
+						q2.hdrDelta, tag = []int{-1, -3, -9, -20, 2}[r.Intn(5)], "in/hdrlen-field"
+					case 9:
+						q2.cutTo, tag = r.Range(1, 31), "in/cut-in-header"
 					case 6:
 						q2.pldDelta, tag = []int{-1, 1, 8}[r.Intn(3)], "in/payloadlen-field"
 					case 7:
